@@ -206,6 +206,41 @@ def symmetric : List SwapPair := [
   ⟨(nm! "DemogSelModels.bottlegrowth_split_mig_sel_single_gamma"), [.param (nm! "nuB"), .param (nm! "nuF"), .param (nm! "m"), .param (nm! "T"), .param (nm! "Ts"), .param (nm! "gamma")]⟩,
   ⟨(nm! "portik_models_2d.sym_mig_twoepoch"), [.param (nm! "nu2"), .param (nm! "nu1"), .param (nm! "m1"), .param (nm! "m2"), .param (nm! "T1"), .param (nm! "T2")]⟩]
 
+/-- model `a` at `argsA`, in the branch `path` of its `if`s (`true` = then), is model `b` at `argsB` (both over the same free
+    parameter names) -/
+structure BranchPair where
+  a : Name
+  argsA : List Expr
+  path : List Bool
+  b : Name
+  argsB : List Expr
+  deriving Repr, DecidableEq
+
+/-- the models with an `if T >= Ts` (split before the size change: the `else` branch): with no size change left (`T = 0`,
+    hence `0 >= Ts` false for `Ts > 0`) they are a split into two populations of the ancestral size.  These pairs reach the
+    branch that the tree-equal delegation pairs above cannot tell apart from its delegates. -/
+def branch : List BranchPair := [
+  ⟨(nm! "DemogSelModels.bottlegrowth_split_mig_sel"),
+     [.param (nm! "nuB"), .param (nm! "nuF"), .param (nm! "m"), .lit 0 1, .param (nm! "Ts"), .param (nm! "gamma1"), .param (nm! "gamma2")], [false],
+   (nm! "DemogSelModels.split_mig_sel"),
+     [.lit 1 1, .lit 1 1, .param (nm! "Ts"), .param (nm! "m"), .param (nm! "gamma1"), .param (nm! "gamma2")]⟩,
+  ⟨(nm! "DemogSelModels.bottlegrowth_split_mig_sel_single_gamma"),
+     [.param (nm! "nuB"), .param (nm! "nuF"), .param (nm! "m"), .lit 0 1, .param (nm! "Ts"), .param (nm! "gamma")], [false],
+   (nm! "DemogSelModels.split_mig_sel_single_gamma"),
+     [.lit 1 1, .lit 1 1, .param (nm! "Ts"), .param (nm! "m"), .param (nm! "gamma")]⟩,
+  ⟨(nm! "DemogSelModels.bottlegrowth_split_sel"),
+     [.param (nm! "nuB"), .param (nm! "nuF"), .lit 0 1, .param (nm! "Ts"), .param (nm! "gamma1"), .param (nm! "gamma2")], [false],
+   (nm! "DemogSelModels.split_mig_sel"),
+     [.lit 1 1, .lit 1 1, .param (nm! "Ts"), .lit 0 1, .param (nm! "gamma1"), .param (nm! "gamma2")]⟩,
+  ⟨(nm! "Demographics2D.bottlegrowth_split_mig"),
+     [.param (nm! "nuB"), .param (nm! "nuF"), .param (nm! "m"), .lit 0 1, .param (nm! "Ts")], [false],
+   (nm! "Demographics2D.split_mig"),
+     [.lit 1 1, .lit 1 1, .param (nm! "Ts"), .param (nm! "m")]⟩,
+  ⟨(nm! "Demographics2D.bottlegrowth_split"),
+     [.param (nm! "nuB"), .param (nm! "nuF"), .lit 0 1, .param (nm! "Ts")], [false],
+   (nm! "portik_models_2d.no_mig"),
+     [.lit 1 1, .lit 1 1, .param (nm! "Ts")]⟩]
+
 def nesting : List (String × List NestPair) :=
   [("zero_migration", zeroMigration), ("zero_epoch", zeroEpoch), ("equal_rates", equalRates),
    ("zero_selection", zeroSelection), ("equal_selection", equalSelection), ("composite", composite)]
